@@ -280,6 +280,8 @@ def coerce(v, ty):
     """Convert v to declared type ty when a canonical embedding exists (None/T -> opt[T], int -> real, bool -> int)."""
     if v.ty == ty:
         return v
+    if ty == ANY:
+        return VAny(z3.Const(fresh_name("opaque"), sort_of(ANY)))
     if isinstance(ty, TOpt):
         if isinstance(v, VNone):
             return VOpt(ty.inner, z3.BoolVal(True), fresh_default(ty.inner))
@@ -334,8 +336,8 @@ def zero_value(ty):
         return VTuple([zero_value(t) for t in ty.items])
     if isinstance(ty, TRec):
         return VRec(ty, {n: zero_value(t) for n, t in ty.fields.items()})
-    if ty == ANY:
-        return fresh_default(ANY)
+    if ty == ANY or isinstance(ty, TEnum):
+        return fresh_default(ty)
     raise Unsupported("no zero value for %s" % ty)
 
 
